@@ -67,8 +67,9 @@ Record Bnd (c : rcfg) (openm : option msg) (lg : list event) (rest : list sframe
   b_wf : Forall wf_sframe rest;
   b_log : r_log r = lg;
   b_state : r_state r = set_fragmented (c_state c) (is_some openm);
+  b_noext : c_ext c = false -> r_compressed r = false;
   b_msg : match openm with
-          | None => r_u8state r = 0 /\ (c_ext c = false -> r_compressed r = false)
+          | None => r_u8state r = 0
           | Some m => r_frame r = false /\ r_opcode r = m_op m /\ r_compressed r = m_comp m
                       /\ u8_ok c (m_op m) (m_acc m) r /\ wf_bytes (m_acc m) /\ spec_control (m_op m) = false
           end }.
@@ -88,6 +89,7 @@ Record Mid (c : rcfg) (m : msg) (f : sframe) (pre post : list byte) (lg : list e
   m_frame : r_frame r = true;
   m_opcode : r_opcode r = m_op m;
   m_compr : r_compressed r = m_comp m \/ spec_control (m_op m) = true;
+  m_noext : c_ext c = false -> r_compressed r = false;
   m_ctlfin : spec_control (m_op m) = true -> sf_fin f = true;
   m_rawN : r_rawN r = len post;
   m_masked : r_masked r = is_some (sf_key f);
@@ -187,7 +189,7 @@ Lemma next_frame_eof c openm lg r : Bnd c openm lg [] r ->
   exists h r', next_frame r = ((h, Some (RIo (if is_some openm then EUnexpected else EEOF))), r')
                /\ r_log r' = lg.
 Proof.
-  intros [Hcfg (Hw & Ht & Hf) _ Hlog Hst _].
+  intros [Hcfg (Hw & Ht & Hf) _ Hlog Hst _ _].
   destruct (header_eof (r_src r) Hw Hf Ht) as (s' & Hrd & _).
   unfold next_frame. rewrite Hrd, Hst, st_frag_set.
   destruct (is_some openm); eexists; eexists; (split; [reflexivity|exact Hlog]).
@@ -210,7 +212,7 @@ Lemma next_frame_spec c openm lg f rest r : wf_cfg c -> Bnd c openm lg (f :: res
            forall k evs, spec_run c k openm evs (f :: rest) = spec_data c k (msg_of c openm f) evs f rest))
   end.
 Proof.
-  intros Hc [Hcfg (Hw & Ht & Hfl) Hwf Hlog Hst Hmsg].
+  intros Hc [Hcfg (Hw & Ht & Hfl) Hwf Hlog Hst Hcz Hmsg].
   pose proof (Forall_inv Hwf) as Hf. pose proof (Forall_inv_tail Hwf) as Hrest. clear Hwf.
   rewrite wire_cons in Hfl.
   assert (Hrw: wf_bytes (wpay f 0 (sf_payload f) ++ wire rest)).
@@ -263,6 +265,7 @@ Proof.
         -- exact Hrest.
         -- rewrite Hlog, Hcomp. reflexivity.
         -- reflexivity.
+        -- exact Hcz.
         -- unfold u8_ok in *; rsimpl. repeat split; try assumption; apply Hu8.
       * intros k evs. rewrite spec_run_cons. cbn [is_some]. rewrite Hok, Hsz, Hfd, Hgood, Hctl. reflexivity.
     + (* continuation frame *)
@@ -284,6 +287,7 @@ Proof.
         -- reflexivity.
         -- exact Hopc.
         -- left. exact Hcomp.
+        -- exact Hcz.
         -- intros; congruence.
         -- reflexivity.
         -- reflexivity.
@@ -293,7 +297,7 @@ Proof.
         -- rewrite app_nil_r. unfold u8_ok in *; rsimpl. exact Hu8.
       * intros k evs. rewrite spec_run_cons. cbn [is_some]. rewrite Hok, Hsz, Hfd, Hgood, Hctl. reflexivity.
   - (* first frame of a message, or a control frame outside a message *)
-    destruct Hmsg as (Hu0 & Hcz).
+    rename Hmsg into Hu0.
     pose proof (broken_none _ _ ContinuationUnexpected Hbr) as Hcu.
     cbn [rule_broken sf_header h_op] in Hcu. rewrite st_frag_set in Hcu. cbn [negb andb] in Hcu.
     pose proof (broken_none _ _ ControlNotFinal Hbr) as Hcf.
@@ -314,6 +318,7 @@ Proof.
       * destruct (spec_control (sf_op f)) eqn:Hctl; [right; reflexivity|left].
         unfold first_data. rewrite Hctl, Hcu. cbn [negb andb]. rewrite andb_true_r.
         destruct (c_ext c); [reflexivity|]. apply Hcz. reflexivity.
+      * intros Hx0. rewrite Hx0. cbn [andb]. apply Hcz, Hx0.
       * intros Hctl. rewrite Hctl in Hcf. cbn [andb] in Hcf. destruct (sf_fin f); [reflexivity|discriminate].
       * reflexivity.
       * reflexivity.
@@ -335,4 +340,251 @@ Proof.
       { unfold first_data in Hgood. rewrite Hctl in Hgood. cbn [negb andb] in Hgood.
         rewrite andb_true_r in Hgood. exact Hgood. }
       rewrite Hcr. reflexivity.
+Qed.
+
+(* ------------------------------------------------------------------ Read, unfolded *)
+Definition rat_eof (data : list byte) (r2 : reader) : (list byte * option rerror) * reader :=
+  if negb (r_rawN r2 =? 0) then ((data, Some (RIo EUnexpected)), r2)
+  else if st_fragmented (r_state r2) then ((data, None), reset_fragment r2)
+  else if r_check_utf8 r2 && negb (r_u8state r2 =? utf8_accept) then
+    ((take (r_u8acc r2) data, Some RInvalidUtf8), r2)
+  else ((data, Some (RIo EEOF)), reset r2).
+Definition rgo (k : N) (r1 : reader) : (list byte * option rerror) * reader :=
+  let '((data, e), r2) := frame_read k r1 in
+  match e with
+  | Some (RIo EEOF) => rat_eof data r2
+  | Some e => ((data, Some e), r2)
+  | None => if negb (r_rawN r2 =? 0) then ((data, None), r2) else rat_eof data r2
+  end.
+Lemma reader_read_eq k r : reader_read k r =
+  if r_frame r then rgo k r
+  else if negb (st_fragmented (r_state r)) then (([], Some RNoFrameAdvance), r)
+  else
+    let '((_, e), r1) := next_frame r in
+    match e with
+    | Some e => (([], Some e), r1)
+    | None => if r_frame r1 then rgo k r1 else (([], None), r1)
+    end.
+Proof. reflexivity. Qed.
+
+Definition mu (r : reader) : nat := (length (flat (r_src r)) + (if r_frame r then 1 else 0))%nat.
+
+Lemma wpay_nil f off : wpay f off [] = [].
+Proof. unfold wpay. destruct (sf_key f); reflexivity. Qed.
+
+Definition msg_after (m : msg) (f : sframe) : msg := (m_op m, m_acc m ++ sf_payload f, m_comp m).
+
+(* the end of a frame's payload *)
+Lemma rat_eof_spec c m f pre lg rest r d : wf_cfg c -> Mid c m f pre [] lg rest r ->
+  (exists r', rat_eof d r = ((d, None), r') /\ sf_fin f = false /\ Bnd c (Some (msg_after m f)) lg rest r'
+      /\ flat (r_src r') = flat (r_src r) /\
+      forall k evs, spec_data c k m evs f rest = spec_run c (S k) (Some (msg_after m f)) evs rest) \/
+  (exists r', rat_eof d r = ((d, Some (RIo EEOF)), r') /\ Bnd c None lg rest r'
+      /\ (r_compressed r' = m_comp m \/ spec_control (m_op m) = true)
+      /\ flat (r_src r') = flat (r_src r) /\
+      forall k evs, spec_data c k m evs f rest =
+        spec_run c (S k) None (evs ++ [mkEv (m_op m) (m_acc m ++ sf_payload f) false (m_comp m)]) rest) \/
+  (exists d', rat_eof d r = ((d', Some RInvalidUtf8), r) /\
+      forall k evs, spec_data c k m evs f rest = mkSR evs [] OInvalidUtf8).
+Proof.
+  intros Hc [Hcfg (Hw & Ht & Hfl) Hwf Hf Hpay Hwacc Hlog Hst Hfr Hopc Hcompr Hnoext Hctlfin Hraw Hmk Hkey Hwrap Hu8].
+  destruct Hcfg as (Hskip & Hchk & Hmax & Hext & Hcb).
+  rewrite app_nil_r in Hpay. rewrite wpay_nil in Hfl. cbn [app] in Hfl.
+  destruct Hu8 as (Hu1 & Hu2 & Hu3).
+  assert (Hwfall: wf_bytes (m_acc m ++ pre)).
+  { apply wf_bytes_app. split; [exact Hwacc|]. rewrite <- Hpay. apply Hf. }
+  unfold rat_eof. rewrite Hraw, len_nil. cbn [N.eqb negb]. rewrite Hst, st_frag_set.
+  destruct m as [[o a] cm]. cbn [m_op m_acc m_comp fst snd] in *. unfold msg_after. cbn [m_op m_acc m_comp fst snd].
+  destruct (sf_fin f) eqn:Hfin; cbn [negb].
+  - rewrite Hchk, ok_utf8_accept. right.
+    destruct (c_check_utf8 c && negb (r_u8state r =? 0)) eqn:Hu.
+    + right. eexists. split; [reflexivity|]. intros k evs. unfold spec_data. rewrite Hfin, Hpay.
+      destruct (wrap_of c o) eqn:Hwr.
+      * rewrite <- dfa_correct by exact Hwfall. rewrite <- Hu1.
+        replace (r_u8state r =? 0) with false by (clear -Hu; lia). reflexivity.
+      * exfalso. rewrite Hu1 in Hu. cbn [N.eqb negb] in Hu. rewrite andb_false_r in Hu. discriminate.
+    + left. eexists. split; [reflexivity|]. split; [|split; [|split]].
+      * constructor; rsimpl; cbn [is_some].
+        -- unfold cfg_ok; rsimpl. repeat split; assumption.
+        -- unfold src_ok; rsimpl. repeat split; assumption.
+        -- exact Hwf.
+        -- exact Hlog.
+        -- exact Hst.
+        -- exact Hnoext.
+        -- reflexivity.
+      * rsimpl. exact Hcompr.
+      * reflexivity.
+      * intros k evs. unfold spec_data. rewrite Hfin, Hpay.
+        destruct (wrap_of c o) eqn:Hwr; [|reflexivity].
+        rewrite <- dfa_correct by exact Hwfall. rewrite <- Hu1.
+        unfold wrap_of in Hwr. apply andb_true_iff in Hwr. destruct Hwr as [Hwr _]. rewrite Hwr in Hu.
+        cbn [andb] in Hu. replace (r_u8state r =? 0) with true by (clear -Hu; lia). reflexivity.
+  - left. eexists. split; [reflexivity|]. split; [reflexivity|]. split; [|split].
+    + constructor; rsimpl; cbn [is_some m_op m_acc m_comp fst snd].
+      * unfold cfg_ok; rsimpl. repeat split; assumption.
+      * unfold src_ok; rsimpl. repeat split; assumption.
+      * exact Hwf.
+      * exact Hlog.
+      * exact Hst.
+      * exact Hnoext.
+      * assert (Hnc: spec_control o = false).
+        { destruct (spec_control o); [|reflexivity]. specialize (Hctlfin eq_refl). discriminate. }
+        rewrite Hpay. repeat split; try assumption; try reflexivity.
+        destruct Hcompr as [Hx|Hx]; [exact Hx|congruence].
+    + reflexivity.
+    + intros k evs. unfold spec_data. rewrite Hfin, Hpay.
+      destruct (wrap_of c o) eqn:Hwr; [|reflexivity].
+      rewrite utf8_viable_dfa by exact Hwfall. rewrite <- Hu1.
+      replace (r_u8state r =? 12) with false by (clear -Hu2; lia). reflexivity.
+Qed.
+
+Lemma cipher_nil key off : cipher [] key off = [].
+Proof. reflexivity. Qed.
+
+(* frame.Read on an exhausted payload *)
+Lemma frame_read_end c m f pre lg rest r kk : Mid c m f pre [] lg rest r ->
+  exists r1, frame_read kk r = (([], Some (RIo EEOF)), r1) /\ Mid c m f pre [] lg rest r1
+             /\ flat (r_src r1) = flat (r_src r).
+Proof.
+  intros [Hcfg Hsrc Hwf Hf Hpay Hwacc Hlog Hst Hfr Hopc Hcompr Hnoext Hctlfin Hraw Hmk Hkey Hwrap Hu8].
+  unfold frame_read, raw_read. rewrite Hraw, len_nil. cbn [N.eqb]. cbv beta iota zeta.
+  rewrite cipher_nil. change (len (@nil byte)) with 0. rewrite N.add_0_r.
+  assert (E1: (if r_masked r then @nil byte else []) = []) by (destruct (r_masked r); reflexivity).
+  assert (E2: (if r_masked r then r_cpos r else r_cpos r) = r_cpos r) by (destruct (r_masked r); reflexivity).
+  rewrite E1, E2. cbn [u8_scan option_map].
+  destruct (r_u8wrap r) eqn:Hw; (eexists; split; [reflexivity|]; split; [|reflexivity]);
+    (constructor; rsimpl; try assumption).
+Qed.
+
+(* frame.Read with payload bytes left: a non-empty piece of the unmasked payload
+   is delivered, or the UTF-8 reader rejects *)
+Lemma frame_read_data c m f pre post lg rest r kk : Mid c m f pre post lg rest r -> post <> [] -> 0 < kk ->
+  exists d post', post = d ++ post' /\ d <> [] /\
+    ((exists d' r1, frame_read kk r = ((d', Some RInvalidUtf8), r1) /\ r_log r1 = lg /\
+        wrap_of c (m_op m) = true /\ u8_run 0 (m_acc m ++ pre ++ d) = 12) \/
+     (exists r1, frame_read kk r = ((d, None), r1) /\ Mid c m f (pre ++ d) post' lg rest r1 /\
+        (length (flat (r_src r1)) < length (flat (r_src r)))%nat)).
+Proof.
+  intros [Hcfg (Hw & Ht & Hfl) Hwf Hf Hpay Hwacc Hlog Hst Hfr Hopc Hcompr Hnoext Hctlfin Hraw Hmk Hkey Hwrap Hu8] Hne Hk.
+  pose proof (len_pos post Hne) as Hlp.
+  assert (Hwpost: wf_bytes post).
+  { destruct Hf as (_ & _ & Hp & _). rewrite Hpay in Hp. apply wf_bytes_app in Hp. apply Hp. }
+  assert (Hwpre: wf_bytes pre).
+  { destruct Hf as (_ & _ & Hp & _). rewrite Hpay in Hp. apply wf_bytes_app in Hp. apply Hp. }
+  unfold frame_read, raw_read. replace (r_rawN r =? 0) with false by (rewrite Hraw; clear -Hlp; lia).
+  pose proof (read1_props_u (N.min kk (r_rawN r)) (r_src r) Hw ltac:(rewrite Hraw; clear -Hlp Hk; lia)) as R.
+  pose proof (read1_len (N.min kk (r_rawN r)) (r_src r)) as RL.
+  destruct (read1 (N.min kk (r_rawN r)) (r_src r)) as [[b e] s']. cbn [fst] in RL.
+  destruct e as [e|].
+  { exfalso. destruct R as (_ & R & _). rewrite Hfl in R. apply (f_equal len) in R.
+    rewrite len_app, len_wpay, len_nil in R. clear -R Hlp. lia. }
+  destruct R as (Hbne & Hsplit & Hw' & Ht').
+  rewrite Hfl in Hsplit.
+  assert (Hlb: len b <= len post) by (rewrite Hraw in RL; clear -RL; lia).
+  destruct (app_split_prefix _ _ _ _ Hsplit ltac:(rewrite len_wpay; exact Hlb)) as [Hb Hrest].
+  rewrite wpay_take in Hb by exact Hlb. rewrite wpay_drop in Hrest by exact Hlb.
+  set (n := len b) in *. set (d := take n post) in *. set (post' := drop n post) in *.
+  assert (Hdp: post = d ++ post') by (symmetry; apply take_drop).
+  assert (Hld: len d = n) by (unfold d; rewrite len_take; clear -Hlb; lia).
+  assert (Hnpos: 0 < n) by (apply len_pos, Hbne).
+  assert (Hdne: d <> []) by (intro E; rewrite E, len_nil in Hld; clear -Hld Hnpos; lia).
+  assert (Hwd: wf_bytes d) by (apply wf_bytes_take, Hwpost).
+  exists d, post'. split; [exact Hdp|]. split; [exact Hdne|].
+  assert (Hb1: (if r_masked r then cipher b (r_key r) (r_cpos r) else b) = d).
+  { rewrite Hmk. destruct (sf_key f) as [key|] eqn:Hkk; cbn [is_some].
+    - destruct (Hkey key eq_refl) as [-> ->]. rewrite Hb. unfold wpay. rewrite Hkk.
+      destruct Hf as (_ & _ & _ & _ & Hkw). rewrite Hkk in Hkw.
+      rewrite cipher_is_spec; [apply mask_spec_involutive| |exact Hkw].
+      apply mask_spec_wf; [exact Hwd|apply Hkw].
+    - rewrite Hb. unfold wpay. rewrite Hkk. reflexivity. }
+  assert (Hlenlt: (length (flat s') < length (flat (r_src r)))%nat).
+  { rewrite Hfl, Hsplit, !app_length. destruct b; [contradiction|]. cbn [length]. clear. lia. }
+  assert (Hsrc': src_ok (mkR s' 0 false false 0 false false CbNone 0 false 0 false [] 0 false 0 0 [])
+                        (wpay f (len (pre ++ d)) post' ++ wire rest)).
+  { unfold src_ok; rsimpl. rewrite len_app, Hld. repeat split; [exact Hw'|congruence|exact Hrest]. }
+  assert (Hkey': forall key, sf_key f = Some key ->
+            r_key r = key /\ (if r_masked r then r_cpos r + len b else r_cpos r) = len (pre ++ d)).
+  { intros key Hkk. destruct (Hkey key Hkk) as [-> ->]. rewrite Hmk, Hkk. cbn [is_some].
+    rewrite len_app, Hld. split; reflexivity. }
+  cbn [cut_err option_map]. rsimpl. rewrite Hb1.
+  destruct Hu8 as (Hu1 & Hu2 & Hu3).
+  rewrite Hwrap. destruct (wrap_of c (m_op m)) eqn:Hwr.
+  - pose proof (scan_spec d (r_u8state r) 0 0 Hwd Hu3 Hu2) as S.
+    destruct (u8_scan (r_u8state r) 0 0 d) as [[st a] rej]. destruct S as [S1 S2].
+    destruct rej.
+    + left. destruct (S1 eq_refl) as [Hr12 _]. do 2 eexists. split; [reflexivity|]. rsimpl.
+      split; [exact Hlog|]. split; [reflexivity|].
+      rewrite app_assoc, run_app. rewrite <- Hu1. exact Hr12.
+    + right. destruct (S2 eq_refl) as [Hst' Hst12]. eexists. split; [reflexivity|]. split; [|exact Hlenlt].
+      constructor; rsimpl; try assumption.
+      * rewrite Hpay, Hdp, app_assoc. reflexivity.
+      * rewrite Hraw. unfold post'. rewrite len_drop. fold n. reflexivity.
+      * symmetry; exact Hwr.
+      * unfold u8_ok; rsimpl. rewrite Hwr. repeat split.
+        -- rewrite app_assoc, run_app, <- Hu1. exact Hst'.
+        -- exact Hst12.
+        -- rewrite Hst'. apply run_states; assumption.
+  - right. eexists. split; [reflexivity|]. split; [|exact Hlenlt].
+    constructor; rsimpl; try assumption.
+    * rewrite Hpay, Hdp, app_assoc. reflexivity.
+    * rewrite Hraw. unfold post'. rewrite len_drop. fold n. reflexivity.
+    * symmetry; exact Hwr.
+    * unfold u8_ok; rsimpl. rewrite Hwr. repeat split; assumption.
+Qed.
+
+(* ------------------------------------------------------------------ one Read inside a frame *)
+Lemma rgo_step c m f pre post lg rest r kk : wf_cfg c -> Mid c m f pre post lg rest r -> 0 < kk ->
+  (exists d post' r', rgo kk r = ((d, None), r') /\ post = d ++ post' /\
+      Mid c m f (pre ++ d) post' lg rest r' /\ (mu r' < mu r)%nat) \/
+  (exists r', rgo kk r = ((post, None), r') /\ Bnd c (Some (msg_after m f)) lg rest r' /\ (mu r' < mu r)%nat /\
+      forall k evs, spec_data c k m evs f rest = spec_run c (S k) (Some (msg_after m f)) evs rest) \/
+  (exists r', rgo kk r = ((post, Some (RIo EEOF)), r') /\ Bnd c None lg rest r'
+      /\ (r_compressed r' = m_comp m \/ spec_control (m_op m) = true)
+      /\ (length (flat (r_src r')) <= length (flat (r_src r)))%nat /\
+      forall k evs, spec_data c k m evs f rest =
+        spec_run c (S k) None (evs ++ [mkEv (m_op m) (m_acc m ++ sf_payload f) false (m_comp m)]) rest) \/
+  (exists d r', rgo kk r = ((d, Some RInvalidUtf8), r') /\ r_log r' = lg /\
+      forall k evs, spec_data c k m evs f rest = mkSR evs [] OInvalidUtf8).
+Proof.
+  intros Hc HM Hk. destruct post as [|x post0].
+  - destruct (frame_read_end c m f pre lg rest r kk HM) as (r1 & Hfr & HM1 & Hfl1).
+    unfold rgo. rewrite Hfr. cbv beta iota zeta.
+    destruct (rat_eof_spec c m f pre lg rest r1 [] Hc HM1)
+      as [(r' & He & Hfin & HB & Hfl' & Hsp)|[(r' & He & HB & Hcp & Hfl' & Hsp)|(d' & He & Hsp)]]; rewrite He.
+    + right; left. exists r'. split; [reflexivity|]. split; [exact HB|]. split; [|exact Hsp].
+      unfold mu. rewrite (m_frame _ _ _ _ _ _ _ _ HM), Hfl', Hfl1.
+      destruct (b_msg _ _ _ _ _ HB) as (-> & _). clear. lia.
+    + right; right; left. exists r'. split; [reflexivity|]. split; [exact HB|]. split; [exact Hcp|].
+      split; [|exact Hsp]. rewrite Hfl', Hfl1. clear. lia.
+    + right; right; right. exists d', r1. split; [reflexivity|]. split; [exact (m_log _ _ _ _ _ _ _ _ HM1)|exact Hsp].
+  - destruct (frame_read_data c m f pre (x :: post0) lg rest r kk HM ltac:(discriminate) Hk)
+      as (d & post' & Hdp & Hdne & [(d' & r1 & Hfr & Hlg & Hwr & H12)|(r1 & Hfr & HM1 & Hlt)]).
+    + unfold rgo. rewrite Hfr. cbv beta iota zeta.
+      right; right; right. exists d', r1. split; [reflexivity|]. split; [exact Hlg|].
+      intros k evs. unfold spec_data. pose proof (m_pay _ _ _ _ _ _ _ _ HM) as Hpay.
+      pose proof (m_wfacc _ _ _ _ _ _ _ _ HM) as Hwacc.
+      pose proof (m_wff _ _ _ _ _ _ _ _ HM) as (_ & _ & Hwp & _).
+      destruct m as [[o a] cm]. cbn [m_op m_acc m_comp fst snd] in *. rewrite Hwr. cbn [andb].
+      rewrite Hpay, Hdp in *.
+      apply wf_bytes_app in Hwp. destruct Hwp as [Hwpre Hwp]. apply wf_bytes_app in Hwp. destruct Hwp as [Hwd Hwpost'].
+      replace (a ++ pre ++ d ++ post') with ((a ++ pre ++ d) ++ post') by (rewrite <- !app_assoc; reflexivity).
+      assert (Hw1: wf_bytes (a ++ pre ++ d)).
+      { apply wf_bytes_app; split; [exact Hwacc|]. apply wf_bytes_app; split; assumption. }
+      destruct (dead_prefix_invalid _ post' Hw1 Hwpost' H12) as [-> ->].
+      destruct (sf_fin f); reflexivity.
+    + unfold rgo. rewrite Hfr. cbv beta iota zeta. rewrite (m_rawN _ _ _ _ _ _ _ _ HM1).
+      destruct post' as [|y post1].
+      * rewrite len_nil. cbn [N.eqb negb]. rewrite app_nil_r in Hdp. subst d.
+        destruct (rat_eof_spec c m f (pre ++ x :: post0) lg rest r1 (x :: post0) Hc HM1)
+          as [(r' & He & Hfin & HB & Hfl' & Hsp)|[(r' & He & HB & Hcp & Hfl' & Hsp)|(d' & He & Hsp)]]; rewrite He.
+        -- right; left. exists r'. split; [reflexivity|]. split; [exact HB|]. split; [|exact Hsp].
+           unfold mu. rewrite (m_frame _ _ _ _ _ _ _ _ HM), Hfl'.
+           destruct (b_msg _ _ _ _ _ HB) as (-> & _). clear -Hlt. lia.
+        -- right; right; left. exists r'. split; [reflexivity|]. split; [exact HB|]. split; [exact Hcp|].
+           split; [|exact Hsp]. rewrite Hfl'. clear -Hlt. lia.
+        -- right; right; right. exists d', r1. split; [reflexivity|].
+           split; [exact (m_log _ _ _ _ _ _ _ _ HM1)|exact Hsp].
+      * replace (len (y :: post1) =? 0) with false by (rewrite len_cons; clear; lia). cbn [negb].
+        left. exists d, (y :: post1), r1. split; [reflexivity|]. split; [exact Hdp|]. split; [exact HM1|].
+        unfold mu. rewrite (m_frame _ _ _ _ _ _ _ _ HM), (m_frame _ _ _ _ _ _ _ _ HM1). clear -Hlt. lia.
 Qed.
